@@ -93,4 +93,26 @@ def max? : BTree α → Option α
 def minD (zero : α) (t : BTree α) : α := (min? t).getD zero
 def maxD (zero : α) (t : BTree α) : α := (max? t).getD zero
 
+/-- Go's `<=`, `<`, `==` on an integer element type -/
+def intCmp : Cmp Int := { le := fun a b => a ≤ b, lt := fun a b => a < b, eq := fun a b => a == b }
+
+/-- operations and observations of a history -/
+inductive Op (α : Type) where
+  | ins (x : α) | rem (x : α) | has (x : α) | min | max
+
+inductive Obs (α : Type) where
+  | unit | flag (b : Bool) | val (v : α)
+  deriving DecidableEq, Repr
+
+def stepOp (c : Cmp α) (zero : α) (t : BTree α) : Op α → BTree α × Obs α
+  | .ins x => (insert c x t, .unit)
+  | .rem x => let (t', b) := remove c x t; (t', .flag b)
+  | .has x => (t, .flag (contains c x t))
+  | .min => (t, .val (minD zero t))
+  | .max => (t, .val (maxD zero t))
+
+def run (c : Cmp α) (zero : α) : BTree α → List (Op α) → List (Obs α)
+  | _, [] => []
+  | t, op :: ops => let (t', o) := stepOp c zero t op; o :: run c zero t' ops
+
 end Bst
